@@ -59,19 +59,24 @@ def model(op, a, sa, b=None, sb=None, n=None):
     raise ValueError(op)
 
 
-UNITS_A = ["Meter", "Foot", "KiloMeter"]
-UNITS_B_ADD = ["Meter", "Foot", "KiloMeter"]
+# mile and inch are several declared equivalences apart (mile -> foot -> inch): the
+# uncertainty of a sum is sqrt(u1**2 + u2**2) computed on quantities, i.e. through a
+# conversion of a SQUARED unit along a multi-hop path
+UNITS_A = ["Meter", "Foot", "KiloMeter", "Mile"]
+UNITS_B_ADD = ["Meter", "Foot", "KiloMeter", "Inch"]
 UNITS_B_MUL = ["Second", "Minute", "Foot"]
 
 
 def get_units(w):
     from measured.si import Kilo, Meter, Minute, Second
-    from measured.us import Foot
+    from measured.us import Foot, Inch, Mile
 
     return {
         "Meter": (Meter, Fraction(1)),
         "Foot": (Foot, Fraction("0.3048")),
         "KiloMeter": (Kilo * Meter, Fraction(1000)),
+        "Mile": (Mile, Fraction("1609.344")),
+        "Inch": (Inch, Fraction("0.0254")),
         "Second": (Second, Fraction(1)),
         "Minute": (Minute, Fraction(60)),
     }
@@ -196,7 +201,8 @@ def eval_case(w, U, case):
     return "ok", None
 
 
-BASE_SIZES = {"meter": Fraction(1), "foot": Fraction("0.3048"), "second": Fraction(1), "minute": Fraction(60)}
+BASE_SIZES = {"meter": Fraction(1), "foot": Fraction("0.3048"), "second": Fraction(1), "minute": Fraction(60),
+              "mile": Fraction("1609.344"), "inch": Fraction("0.0254")}
 
 
 def unit_size(unit):
